@@ -314,7 +314,7 @@ def token_mutations(ctx, n, workdir):
     uncrustify may refuse them; what it accepts must still come out with the same tokens"""
     ins = [c for c in corpus.inputs() if (c.lang or corpus.lang_of(c.inp)) in lex.C_FAMILY and 200 < os.path.getsize(c.inp) < 20000]
     ctx.rng.shuffle(ins)
-    OPS = ["+", "-", "*", "/", "&", "&&", "|", "<", ">", "<<", ">>", "::", "->", ".", "...", "?", ":", "=", "==", "++", "--", "~", "!", "%", "^", "#", "##",
+    OPS = ["+", "-", "*", "/", "&", "&&", "|", "<", ">", "<<", ">>", "::", "->", ".", "...", "?", ":", "=", "==", "++", "--", "~", "!", "%", "^",
            "1.", ".5", "0x1e", "return", "case", "else", "L", "R", "u8"]
     jobs = []
     unc = ctx.unc()
@@ -340,7 +340,8 @@ def token_mutations(ctx, n, workdir):
                 edits.append((a_[2], a_[3], ctx.rng.choice(OPS)))               # replace by an operator / number / keyword
             elif how == 3:
                 edits.append((a_[3], a_[3], " " + ctx.rng.choice(OPS) + " "))   # insert
-            else:
+            elif not text[b_[2]:b_[3]].startswith("#") and not text[a_[2]:a_[3]].startswith("#"):
+                # (a '#' that leaves the start of its line is no token of the language outside a directive: the mutations keep it there)
                 edits.append((a_[3], b_[2], ""))                                # close the gap to the next token
         out = text
         for s_, e_, r_ in sorted(set(edits), reverse=True):
@@ -368,6 +369,14 @@ def report(ctx, jobs_res, reps, kinds, prop_kind):
                 continue
             jid, src, cfg, cfg_text, lang = j
             parts = jid.split("|")
+            if prop_kind == "pipeline-relex" and lang in lex.C_FAMILY and info.get("rc") == 0:
+                # uncrustify's tokenizer re-read its own output differently; for the languages the independent lexer knows,
+                # the language's token stream decides ('# \<nl> define' is '#define' for C, not for uncrustify's tokenizer)
+                a_ = pe.project_lexer(obs.decode(open(src, "rb").read()), lang)
+                b_ = pe.project_lexer(obs.decode(info["out"]), lang)
+                if a_[0] == b_[0]:
+                    ctx.drift.append({"module": "Pipeline", "kind": "OwnTokenizerRereadsDifferently", "id": rep["id"]})
+                    continue
             sig = "%s|%s" % (b, jid)
             if parts[0] in ("corpus", "random"):
                 sig = "%s|input|%s" % (b, parts[2])      # an input that is unstable lexically is so under every configuration that touches it
